@@ -328,7 +328,7 @@ theorem parse_np (ty : Ty) (fields : List Field) (input : Bytes) (now : Clock)
     (hwf : ∀ f ∈ fields, Field.WellFormed f) : NoPanic (parse ty fields input now) := by
   unfold parse
   unfold NoPanic
-  cases hp : parseFields ty now { s := input } fields with
+  cases hp : parseFields ty now (initSt ty input) fields with
   | error e =>
     simp only [bind, Except.bind]
     intro h; cases h
